@@ -1,2 +1,338 @@
+"""C01.bounds / C03.bounds (E3) — bounded encodings.
+
+ (a) every integer narrowing (or float->int) cast in the bytecode generator whose result is an operand encoding
+     (u8/u16/i16/i8 targets: GlobalPos, Reg, ConstPos, Offset, TypeTableIndex) must be range-checked: the source is a
+     constant in range, comes from a type that fits, is reduced (min/clamp/rem/mask) or a comparison of the source
+     value dominates the cast;
+ (b) the f64 -> f16 literal encoding must be guarded by *exact* round-trip equality;
+ (c) every bump allocator over a fixed linear-memory region in the WASM generator (a field that is only ever
+     advanced by `+=`) must be compared with the end of its region somewhere in the generator;
+ (d) an `unwrap`/`expect` on the result of a checked narrowing (`try_from`, `try_into`) in the generator is an
+     unchecked narrowing in disguise (it panics instead of refusing)."""
+from ..cfg import DefIndex, dominators
+from ..facts import KIND, callee, const_float, const_int, place_fields
+from .. import roles
+
+W = {"u8": 8, "i8": 8, "u16": 16, "i16": 16, "u32": 32, "i32": 32, "u64": 64, "i64": 64, "usize": 64, "isize": 64, "u128": 128, "i128": 128, "bool": 1, "char": 32}
+ENC_TARGETS = ("u8", "i8", "u16", "i16")
+
+
+def rng(ty):
+    w = W[ty]
+    if ty == "bool":
+        return (0, 1)
+    if ty.startswith("i"):
+        return (-(1 << (w - 1)), (1 << (w - 1)) - 1)
+    return (0, (1 << w) - 1)
+
+
+def fits(src_ty, dst_ty):
+    if src_ty not in W or dst_ty not in W:
+        return False
+    a, b = rng(src_ty), rng(dst_ty)
+    return a[0] >= b[0] and a[1] <= b[1]
+
+
+class Origin:
+    def __init__(self, kind, desc, safe, aliases):
+        self.kind = kind
+        self.desc = desc
+        self.safe = safe
+        self.aliases = aliases  # locals holding (a widening of) the same value
+
+
+def origin(fn, di, op, target, names):
+    """follow copies and casts backwards from the cast operand"""
+    aliases = set()
+    cur = op
+    for _ in range(16):
+        if cur[0] == "c":
+            v = const_int(cur)
+            if v is not None:
+                lo, hi = rng(target)
+                return Origin("const", str(v), lo <= v <= hi, aliases)
+            return Origin("const", "const", False, aliases)
+        pl = cur[1]
+        if pl[1]:
+            flds = place_fields(pl)
+            ty = None
+            return Origin("place", (flds[-1].split("::")[-1] if flds and flds[-1] else "proj"), False, aliases)
+        l = pl[0]
+        aliases.add(l)
+        if fits(fn.local_ty(l), target):
+            return Origin("fits", fn.local_ty(l), True, aliases)
+        ds = di.defs.get(l, [])
+        if 1 <= l <= fn.d["argc"] and not ds:
+            return Origin("arg", names.get(l, "arg%d" % l), False, aliases)
+        if len(ds) != 1:
+            return Origin("multi", names.get(l, "_%d" % l), False, aliases)
+        b, i, s = ds[0]
+        if i is None:
+            c = (callee(s) or "<fnptr>")
+            short = c.split("::")[-1]
+            safe = False
+            if short in ("min", "clamp") or short.startswith(("checked_", "saturating_")):
+                # reduced against something; only constant bounds in range count
+                for a in s[5]:
+                    v = const_int(a)
+                    if v is not None and rng(target)[0] <= v <= rng(target)[1]:
+                        safe = True
+            return Origin("call", short, safe, aliases)
+        rv = s[5]
+        if rv[0] == "use":
+            cur = rv[1]
+            continue
+        if rv[0] == "cast":
+            if fits(rv[3], target):
+                return Origin("fits", rv[3], True, aliases)
+            cur = rv[2]
+            continue
+        if rv[0] == "bin" and rv[1] in ("rem", "and"):
+            v = const_int(rv[3])
+            if v is not None and 0 <= v <= rng(target)[1] + (1 if rv[1] == "rem" else 0):
+                return Origin("reduced", "%s %d" % (rv[1], v), True, aliases)
+        if rv[0] == "bin":
+            return Origin("arith", rv[1], False, aliases)
+        if rv[0] == "un" and rv[1] == "ptrmeta":
+            return Origin("len", "len", False, aliases)
+        return Origin(rv[0], rv[0], False, aliases)
+    return Origin("deep", "deep", False, aliases)
+
+
+def has_dominating_compare(fn, dom, b, aliases, di):
+    """a comparison of one of `aliases` (same value) whose result drives a switch in a block dominating b"""
+    for d in dom.get(b, ()):
+        if d == b:
+            continue
+        blk = fn.bb[d]
+        t = blk["t"]
+        if t[KIND] != "switch":
+            continue
+        for s in blk["s"]:
+            if s[KIND] == "a" and s[5][0] == "bin" and s[5][1] in ("lt", "le", "gt", "ge"):
+                for o in (s[5][2], s[5][3]):
+                    if o[0] in ("cp", "mv") and not o[1][1]:
+                        l = o[1][0]
+                        if l in aliases:
+                            return True
+                        # one copy step
+                        dd = di.single_def(l)
+                        if dd and dd[1] is not None and dd[2][5][0] == "use":
+                            oo = dd[2][5][1]
+                            if oo[0] in ("cp", "mv") and not oo[1][1] and oo[1][0] in aliases:
+                                return True
+    return False
+
+
+def narrowing_sites(fn):
+    out = []
+    for b, blk in enumerate(fn.bb):
+        if blk["c"]:
+            continue
+        for s in blk["s"]:
+            if s[KIND] == "a" and s[5][0] == "cast" and s[5][1] in ("IntToInt", "FloatToInt"):
+                fr, to = s[5][3], s[5][4]
+                if to in ENC_TARGETS and not fits(fr, to):
+                    out.append((b, s))
+    return out
+
+
+def rule_casts(ck, facts, R, module_mark, label):
+    lang = facts.crate(roles.LANG)
+    total = 0
+    guarded = 0
+    groups = {}
+    for fn in lang.fns:
+        if module_mark not in fn.path or roles.is_derived(fn) or fn.kind == "promoted":
+            continue
+        sites = narrowing_sites(fn)
+        if not sites:
+            continue
+        di = DefIndex(fn)
+        dom = None
+        names = fn.dbg_names()
+        for b, s in sites:
+            total += 1
+            if s[1] and any(m.startswith("debug_assert") for m in s[1]):
+                continue
+            fr, to = s[5][3], s[5][4]
+            org = origin(fn, di, s[5][2], to, names)
+            ok = org.safe
+            if not ok:
+                dom = dom or dominators(fn)
+                ok = has_dominating_compare(fn, dom, b, org.aliases, di)
+                if ok:
+                    org.kind = "guarded"
+            if ok:
+                guarded += 1
+                ck.ok(R, "cast|%s|%s->%s|%s" % (fn.short, fr, to, org.kind), {"fn": fn.short, "cast": "%s as %s" % (fr, to), "why_safe": "%s %s" % (org.kind, org.desc), "at": fn.where(s)})
+            else:
+                # the enclosing named function (closures are keyed under their root so that closure renumbering
+                # does not change keys)
+                root = fn.root.split("::", 1)[1]
+                key = "cast|%s|%s->%s|%s:%s" % (root, fr, to, org.kind, org.desc)
+                groups.setdefault(key, []).append((fn, s))
+    for key, lst in sorted(groups.items()):
+        fn, s = lst[0]
+        k = "%s|x%d" % (key, len(lst))
+        ck.bad(
+            R,
+            k,
+            "%s: %d unchecked narrowing cast(s) `%s as %s` of %s into an operand encoding in %s (a value above %d is silently truncated)"
+            % (label, len(lst), s[5][3], s[5][4], key.rsplit("|", 1)[1], fn.short, rng(s[5][4])[1]),
+            ", ".join(f.where(x) for f, x in lst[:6]),
+        )
+    ck.setcount("%s_narrowing_casts" % label, total)
+    ck.setcount("%s_narrowing_casts_guarded" % label, guarded)
+    return total
+
+
+def rule_literal_fidelity(ck, facts, R):
+    """the lossy f64 -> half conversion used for inline float literals must accept only exact round trips"""
+    lang = facts.crate(roles.LANG)
+    cands = [
+        f
+        for f in lang.fns
+        if f.d.get("trait", "").endswith("convert::TryFrom") and "f16" in " ".join(f.d["locals"]) and f.local_ty(1) == "f64"
+    ]
+    ck.require(R, len(cands) >= 1, "anchor|f64->f16 TryFrom", "no TryFrom<f64> impl producing a half float found (the literal-fidelity rule would be vacuous)")
+    for f in cands:
+        di = DefIndex(f)
+        verdict = None
+        for b, blk in enumerate(f.bb):
+            t = blk["t"]
+            if blk["c"] or t[KIND] != "switch":
+                continue
+            r = di.resolve(t[4])
+            if r[0] == "rv" and r[1][5][0] == "bin":
+                op = r[1][5][1]
+                c = const_float(r[1][5][3])
+                if op in ("lt", "le", "gt", "ge"):
+                    verdict = ("tolerance", op, c, f.where(t))
+                elif op in ("eq", "ne"):
+                    verdict = ("exact", op, c, f.where(t))
+        key = "literal-fidelity|%s" % f.short
+        if verdict and verdict[0] == "exact":
+            ck.ok(R, key, {"fn": f.short, "test": verdict[1]})
+        elif verdict:
+            ck.bad(R, key, "%s accepts a lossy conversion: the round-trip error is tested with `%s %r` instead of exact equality, so an inline literal can change value on the VM only" % (f.short, verdict[1], verdict[2]), verdict[3])
+        else:
+            ck.bad(R, key, "%s: no round-trip test found guarding the Ok result" % f.short, f.where())
+
+
+def rule_checked_unwrap(ck, facts, R, module_mark):
+    """try_from(..).unwrap() on a narrowing inside the generator"""
+    lang = facts.crate(roles.LANG)
+    n = 0
+    for fn in lang.fns:
+        if module_mark not in fn.path or roles.is_derived(fn) or fn.kind == "promoted":
+            continue
+        di = None
+        for b, t in fn.calls():
+            c = callee(t) or ""
+            if not (c.endswith("::unwrap") or c.endswith("::expect")):
+                continue
+            di = di or DefIndex(fn)
+            r = di.resolve(t[5][0])
+            if r[0] != "call":
+                continue
+            cc = callee(r[1]) or ""
+            cd = r[1][4].get("def", "")
+            if cd.endswith("TryFrom::try_from") or cd.endswith("TryInto::try_into"):
+                n += 1
+                root = fn.root.split("::", 1)[1]
+                tgt = (r[1][4].get("a0") or "?")
+                ck.bad(R, "checked-unwrap|%s|%s" % (root, tgt.split("::")[-1]), "%s unwraps a checked conversion to %s: an out-of-range value panics the compiler instead of being encoded another way or refused" % (fn.short, tgt), fn.where(t))
+    ck.setcount("checked_conversion_unwraps", n)
+
+
+def rule_bump_allocators(ck, facts, R):
+    """fields of the wasm generator's memory layout that are only ever advanced must be compared with a limit"""
+    lang = facts.crate(roles.LANG)
+    writes = {}  # field -> [(fn, stmt, kind)]
+    compares = {}
+    reads = {}
+    for fn in lang.fns:
+        if "::compiler::wasmgen" not in fn.path or roles.is_derived(fn) or fn.kind == "promoted":
+            continue
+        di = None
+        for b, s in fn.all_stmts():
+            if s[KIND] != "a":
+                continue
+            flds = place_fields(s[4])
+            if flds and flds[-1] and "MemoryLayout::" in flds[-1]:
+                rv = s[5]
+                di = di or DefIndex(fn)
+                kind = "set"
+                # x = move tmp ; tmp = add_ov(x, n).0  => advance
+                src = rv
+                if rv[0] == "use" and rv[1][0] in ("cp", "mv"):
+                    p = rv[1][1]
+                    d = di.single_def(p[0])
+                    if d and d[1] is not None:
+                        src = d[2][5]
+                if src[0] == "bin" and src[1].startswith("add"):
+                    kind = "advance"
+                writes.setdefault(flds[-1], []).append((fn, s, kind))
+            # reads used in comparisons
+            rv = s[5]
+            if rv[0] == "bin" and rv[1] in ("lt", "le", "gt", "ge"):
+                di = di or DefIndex(fn)
+                for o in (rv[2], rv[3]):
+                    r = di.resolve(o)
+                    if r[0] == "place":
+                        f2 = place_fields(r[1])
+                        if f2 and f2[-1] and "MemoryLayout::" in f2[-1]:
+                            compares.setdefault(f2[-1], []).append((fn, s))
+    ck.floor(R, "wasm_memory_layout_fields_written", len(writes), 3)
+    # "sized-from": the final value of the allocator determines the size of the linear memory
+    sizers = set()
+    mem_builders = [f for f in lang.fns if "::compiler::wasmgen" in f.path and roles.constructs_adt(f, "wasm_encoder::core::memories::MemoryType") + roles.constructs_adt(f, "wasm_encoder::MemoryType") > 0]
+    mem_callees = set()
+    for f in mem_builders:
+        mem_callees.add(f.path)
+        for b, t in f.calls():
+            c = callee(t)
+            if c:
+                mem_callees.add(c)
+    for fn in lang.fns:
+        if fn.path not in mem_callees:
+            continue
+        for b, s in fn.all_stmts():
+            if s[KIND] == "a" and s[5][0] == "use" and s[5][1][0] in ("cp", "mv"):
+                f2 = place_fields(s[5][1][1])
+                if f2 and f2[-1] and "MemoryLayout::" in f2[-1]:
+                    sizers.add(f2[-1])
+    for fld, ws in sorted(writes.items()):
+        adv = [w for w in ws if w[2] == "advance"]
+        if not adv:
+            continue
+        name = fld.split("::")[-1]
+        if fld in sizers:
+            ck.ok(R, "bump|%s" % name, {"field": fld, "advance_sites": len(adv), "bounded_by": "the linear memory is sized from its final value"})
+        elif compares.get(fld):
+            ck.ok(R, "bump|%s" % name, {"field": fld, "advance_sites": len(adv), "compared_in": compares[fld][0][0].short})
+        else:
+            ck.bad(
+                R,
+                "bump|%s" % name,
+                "bump allocator %s is advanced at %d site(s) (e.g. %s) but never compared with the end of its linear-memory region: a program that allocates more than the region holds overlaps the next region silently"
+                % (name, len(adv), adv[0][0].short),
+                ", ".join(sorted({f.where(s) for f, s, _ in adv})[:5]),
+            )
+
+
 def run(ck, facts, cg, anchors, tier, pid):
-    pass
+    R = "%s.bounds" % pid
+    ck.rule(
+        R,
+        "every narrowing cast to an operand-encoding type (u8/i8/u16/i16) in the bytecode generator is range-checked "
+        "(constant in range, source type fits, reduced, or a dominating comparison of the same value); the f64->f16 "
+        "literal encoding accepts only exact round trips; bump allocators of the wasm memory layout are compared with a limit; "
+        "no unwrap of a checked narrowing",
+    )
+    n = rule_casts(ck, facts, R, "::compiler::bytecodegen", "bytecodegen")
+    ck.floor(R, "bytecodegen_narrowing_casts_found", n, 20)
+    rule_literal_fidelity(ck, facts, R)
+    rule_checked_unwrap(ck, facts, R, "::compiler::bytecodegen")
+    rule_bump_allocators(ck, facts, R)
